@@ -183,6 +183,25 @@ class G15:
             z = rng.choice(("0", "-0", "(0 * -1)", "(1 - 1)"))
             return ("log(%d, String((%s ** %d) %% 9973) + '|' + String(1 / (%s ** 3)) + '|' + String(%s * %d %% 7) + '|' + String(1 / (%s * 5)));"
                     % (t, base, e, z, base, e, z))
+        if rng.random() < 0.10:
+            # functions compiled while the program runs (Function constructor, eval), of several shapes,
+            # made and dropped many times: whatever the engine remembers about a compiled function must
+            # not outlive it
+            shapes = []
+            for _ in range(rng.randrange(2, 4)):
+                ps = ["q%d" % k for k in range(rng.randrange(1, 4))]
+                cap = [x for x in ps if rng.random() < 0.7] or ps[:1]
+                loc = "var w_ = %d; " % rng.randrange(1, 9) if rng.random() < 0.5 else ""
+                body = "%sreturn function(){ return (%s%s) %% 9973; };" % (loc, " + ".join("%s * %d" % (x, rng.randrange(1, 5)) for x in cap), " + w_" if loc else "")
+                if rng.random() < 0.6:
+                    mk = "new Function(%s)" % ", ".join([json.dumps(x) for x in ps] + [json.dumps(body)])
+                else:
+                    mk = "eval(%s)" % json.dumps("(function(%s){ %s })" % (", ".join(ps), body))
+                shapes.append((mk, len(ps)))
+            acc = self.fresh("acc")
+            i = self.fresh("i")
+            calls = " ".join("%s = (%s + (%s)(%s)()) %% 9973;" % (acc, acc, mk, ", ".join("%s + %d" % (i, k) for k in range(n))) for mk, n in shapes)
+            return "var %s = 0; for (var %s = 0; %s < %d; %s++) { %s } log(%d, %s);" % (acc, i, i, rng.choice((40, 80, 150)), i, calls, t, acc)
         if self.known and rng.random() < 0.3:
             # a closure looks at some function name (declared later here, in an enclosing function,
             # or not in scope at all: typeof is safe either way)
